@@ -117,3 +117,62 @@ Proof.
       | |- context [if verb_is ?r ?v ?n then _ else _] => let E := fresh in destruct (verb_is r v n) eqn:E; [exfalso; eapply (Hne v n); [discriminate|exact E]|]
       end. discriminate.
 Qed.
+
+(* a REFUSED command (negative status, whatever the verb) changes nothing at all: neither the addressed transceiver nor any
+   other, nor the random draws.  (An unsupported but in-range SETFORMAT is answered with the highest supported lower version,
+   a non-negative status, and changes nothing either: c05_setformat.) *)
+Lemma fake_handler_refused s req s' rc ex : fake_handler s req = (s', Some (CStatus rc ex)) -> rc < 0 -> s' = s.
+Proof.
+  unfold fake_handler.
+  repeat match goal with
+  | |- context [if verb_is ?r ?v ?n then _ else _] => destruct (verb_is r v n)
+  | |- context [match arg ?r ?i with _ => _ end] => destruct (arg r i)
+  | |- context [if ?a <? ?b then _ else _] => destruct (a <? b)
+  | |- context [if ?a <=? ?b then _ else _] => destruct (a <=? b)
+  end; intros H0 Hrc; try discriminate; inversion H0; subst; try reflexivity; lia.
+Qed.
+
+Theorem refused_no_effect w i req draws w' rc ex d' : (i < length (w_trx w))%nat ->
+  parse_cmd w i req draws = (w', CStatus rc ex, d') -> rc < 0 -> w' = w /\ d' = draws.
+Proof.
+  intros Hi. unfold parse_cmd. destruct (nth_error (w_trx w) i) as [t|] eqn:Et; [|discriminate].
+  destruct (fake_handler (x_sim t) req) as [s' r] eqn:Ef.
+  destruct r as [res|].
+  - intros H Hrc. injection H as <- -> <-. apply fake_handler_refused in Ef; [|exact Hrc]. subst s'. split; [apply (upd_trx_same w i t Et)|reflexivity].
+  - assert (Es : s' = x_sim t \/ exists a, verb_is req v_FAKE_TRXC_DELAY 1 = true /\ arg req 1 = Some a).
+    { revert Ef. unfold fake_handler.
+      repeat match goal with
+      | |- context [if verb_is ?r ?v ?n then _ else _] => destruct (verb_is r v n) eqn:?
+      | |- context [match arg ?r ?i with _ => _ end] => destruct (arg r i) eqn:?
+      | |- context [if ?a <? ?b then _ else _] => destruct (a <? b)
+      | |- context [if ?a <=? ?b then _ else _] => destruct (a <=? b)
+      end; intros H; injection H as <-; try discriminate; eauto. }
+    destruct Es as [-> | [a [Hv Ha]]].
+    + rewrite (upd_trx_same w i t Et), set_sim_same.
+      repeat match goal with
+      | |- context [if verb_is ?r ?v ?n then _ else _] => destruct (verb_is r v n)
+      | |- context [if verb_va ?r ?v ?n then _ else _] => destruct (verb_va r v n)
+      | |- context [match arg ?r ?i with _ => _ end] => destruct (arg r i)
+      | |- context [if x_run ?t then _ else _] => destruct (x_run t)
+      | |- context [if negb ?b then _ else _] => destruct (negb b)
+      | |- context [match all_ints ?l with _ => _ end] => destruct (all_ints l) as [[|? [|? ?]]|]
+      | |- context [if (?a || ?b) then _ else _] => destruct (a || b) eqn:?
+      | |- context [if known ?v then _ else _] => destruct (known v) eqn:?
+      | |- context [if (?a =? ?b)%nat then _ else _] => destruct (a =? b)%nat
+      | |- context [if pm_match ?a ?b then _ else _] => destruct (pm_match a b)
+      | |- context [match randint ?a ?b ?c with _ => _ end] => destruct (randint a b c) as [[? ?]|]
+      end; intros H0 Hrc; try discriminate; inversion H0; subst; auto; try lia.
+    + assert (Hne : forall v n, v <> v_FAKE_TRXC_DELAY -> verb_is req v n = true -> False).
+      { intros v n Hv' H1. unfold verb_is in *. destruct req as [|v0 args]; [discriminate|].
+        apply andb_prop in Hv as [Hv _]. apply andb_prop in H1 as [H1 _]. apply list_eqb_eq in Hv. apply list_eqb_eq in H1. congruence. }
+      intros H Hrc. exfalso. revert H.
+      repeat match goal with
+      | |- context [if verb_is ?r ?v ?n then _ else _] => let E := fresh in destruct (verb_is r v n) eqn:E; [exfalso; eapply (Hne v n); [discriminate|exact E]|]
+      end.
+      destruct (verb_va req v_SETFH 4) eqn:Eva.
+      { exfalso. unfold verb_va, verb_is in *. destruct req as [|v0 args]; [discriminate|]. apply andb_prop in Hv as [Hv _]. apply andb_prop in Eva as [Eva _].
+        apply list_eqb_eq in Hv. apply list_eqb_eq in Eva. subst v0. discriminate. }
+      repeat match goal with
+      | |- context [if verb_is ?r ?v ?n then _ else _] => let E := fresh in destruct (verb_is r v n) eqn:E; [exfalso; eapply (Hne v n); [discriminate|exact E]|]
+      end. intros Hfin. inversion Hfin; subst. lia.
+Qed.
